@@ -25,8 +25,10 @@ import (
 	"sigs.k8s.io/controller-runtime/pkg/client/interceptor"
 
 	v1 "sigs.k8s.io/karpenter/pkg/apis/v1"
+	"sigs.k8s.io/karpenter/pkg/cloudprovider"
 	"sigs.k8s.io/karpenter/pkg/controllers/disruption"
 	"sigs.k8s.io/karpenter/pkg/controllers/dynamicresources/deviceallocation"
+	"sigs.k8s.io/karpenter/pkg/controllers/nodeoverlay"
 	"sigs.k8s.io/karpenter/pkg/controllers/provisioning"
 	"sigs.k8s.io/karpenter/pkg/operator/options"
 	"sigs.k8s.io/karpenter/pkg/state/virtualpods"
@@ -69,6 +71,8 @@ type Ext struct {
 	// the API) whose Node event the cluster state has not processed yet: Cluster.UpdatePod fails with NotFound for the node
 	// but already tracks the pod as an anti-affinity pod without a binding
 	UntrackedAntiPods int `json:"untrackedAntiPods,omitempty"`
+	// FeatureGates.NodeOverlay is on, these NodeOverlays exist and the decorated provider is in use: see overlay.go
+	Overlays []Overlay `json:"overlays,omitempty"`
 	// FeatureGates.CapacityBuffer is on and these CapacityBuffers exist: see buffers.go
 	Buffers []Buffer `json:"buffers,omitempty"`
 	// dynamic resource allocation is on (IgnoreDRARequests=false): see dra.go
@@ -86,6 +90,10 @@ type Env struct {
 	Ext    *Ext
 	// the deviceallocation controller the Provisioner reads the allocated in-cluster devices from (nil without DRA)
 	Dev *deviceallocation.Controller
+	// the cloud provider the Provisioner and the disruption helpers see: W.CP, or W.CP behind the NodeOverlay decorator
+	CP cloudprovider.CloudProvider
+	// the NodeOverlay instance type store behind the decorator (nil without overlays)
+	Store *nodeoverlay.InstanceTypeStore
 	// the cache of CapacityBuffer virtual pods the Provisioner appends to the pending pods (nil without buffers)
 	VPods *virtualpods.Cache
 	ids   map[*corev1.Pod]int
@@ -252,6 +260,12 @@ func BuildEnv(s *world.Scenario, ext *Ext) (*Env, error) {
 		}
 	}
 	e.Client = countingClient(w.Client, e.Writes, &e.onList)
+	e.CP = w.CP
+	if len(ext.Overlays) > 0 {
+		if err := e.applyOverlays(ext.Overlays); err != nil {
+			return nil, err
+		}
+	}
 	if len(ext.Buffers) > 0 {
 		if err := e.applyBuffers(ext.Buffers); err != nil {
 			return nil, err
@@ -262,7 +276,7 @@ func BuildEnv(s *world.Scenario, ext *Ext) (*Env, error) {
 	if vp == nil {
 		vp = virtualpods.NewVirtualPodCache(e.Client)
 	}
-	e.Prov = provisioning.NewProvisioner(e.Client, e.Rec, w.CP, w.Cluster, w.Clock, e.Dev, vp)
+	e.Prov = provisioning.NewProvisioner(e.Client, e.Rec, e.CP, w.Cluster, w.Clock, e.Dev, vp)
 	e.Queue = disruption.NewQueue(e.Client, e.Rec, w.Cluster, w.Clock, e.Prov)
 	w.Cluster.SetSynced(true)
 	// memoised derived data of the instance types is computed once up front (it is a cache, not a change of the catalog)
